@@ -5,6 +5,7 @@ package recovery
 // Machine-checked contracts (comment-only; compiled to nothing). Checked by /verif/bin/stfsvc.
 
 //@ func Index
+//@   param onHeader is HeaderCallback
 //@   property C10 also C11
 //@   safety C10
 //@   requires decryptHeader != nil && verifyHeader != nil
@@ -26,6 +27,7 @@ package recovery
 //@   at call indexHeader#2 assert [accept-site-tape] hdrVerified[arg_hdr] || hdrSubstituted[arg_hdr]
 
 //@ func Query
+//@   param onHeader is HeaderCallback
 //@   property C10 also C11
 //@   safety C10
 //@   modifies *, ghosts(C04), ghosts(C08), ghosts(C09), ghosts(C14), ghosts(C07)
@@ -41,6 +43,7 @@ package recovery
 //@   at call TarHeaderToDBHeader#1 assert [header-position] 512*(pipes.RecordSize*arg_record+arg_block) == hdrStart(arg_tarhdr) && 0 <= arg_block && arg_block < pipes.RecordSize
 
 //@ func Fetch
+//@   param onHeader is HeaderCallback
 //@   property C10 also C11
 //@   safety C10
 //@   modifies *, ghosts(C04), ghosts(C08), ghosts(C09), ghosts(C14), ghosts(C07)
@@ -52,9 +55,13 @@ package recovery
 //@   at call mkdirAll assert [accept-site-dir] hdrVerified[hdr]
 
 //@ func indexHeader
+//@   param onHeader is HeaderCallback
 //@   property C10 also C11
 //@   safety C10
 //@   modifies *, indexWrites, hdrVerified[hdr], hdrSubstituted[hdr], hdrSealed[hdr], ghosts(C14), ghosts(C07)
+//@   property C17
+//@   at call UpsertHeader#1 assert [foreign-record-is-create] !old(has(hdr.PAXRecords, "STFS.Action")) || old(hdr.PAXRecords["STFS.Action"]) == "CREATE"
+//@   at call UpsertHeader#1 assert [foreign-record-version] !old(has(hdr.PAXRecords, "STFS.Version")) || old(hdr.PAXRecords["STFS.Version"]) == "1"
 //@   property C03
 //@   at call RemoveSuffix#1 assert [suffix-stripped-only-when-added] old(has(hdr.PAXRecords, "STFS.UncompressedSize")) && !old(has(hdr.PAXRecords, "STFS.ReplacesName")) && old(hdr.PAXRecords["STFS.ReplacesContent"]) != "false"
 //@   at call FileInfo#1 assert [stored-size-is-content-length] old(has(hdr.PAXRecords, "STFS.UncompressedSize")) ==> hdr.Size == atoiF(old(hdr.PAXRecords["STFS.UncompressedSize"]))
